@@ -32,7 +32,8 @@ PROPERTY = 'C19'
 LEVEL = 'exploration'
 
 UNIVERSE = ['a.txt', 'A.TXT', 'mat.txt', 'materials/x.vmt', 'materials/sub/y.vtf', 'materials2/z.vmt',
-            'Models/m.mdl', 'x', '.hid/k.txt', 'Stra\u00dfe/\u0391\u03a3.txt']
+            'Models/m.mdl', 'x', '.hid/k.txt', 'Stra\u00dfe/\u0391\u03a3.txt',
+            'materials.txt', 'materials-old/q.vmt']      # these sort between 'materials' and 'materials/'
 ABSENT = ['nope.txt', 'materials', 'materials/sub', 'materials/x', 'mat', 'x.vmt', 'hid/k.txt', 'k.txt', '.a.txt']     # never files
 BACKENDS = ['virtual', 'zip', 'vpk', 'raw']
 SET_BACKENDS = BACKENDS + ['raw_free']       # RawFileSystem(path, constrain_path=False): file-set battery only
@@ -121,8 +122,8 @@ def materialise(where: str, backend: str, files: list) -> str:
     if backend == 'vpk':
         path = os.path.join(where, 'pak01_dir.vpk')
         vpk = VPK(path, mode='w')
-        for name, data in files:
-            vpk.add_file(name, data, arch_index=None)
+        for i, (name, data) in enumerate(files):
+            vpk.add_file(name, data, arch_index=(0, None, 1)[i % 3])       # numbered archives 0 and 1, and the directory file's tail
         vpk.write_dirfile()
         return path
     if backend in ('raw', 'raw_free'):
@@ -296,7 +297,8 @@ def judge_walk(obs, keys: dict, folder: str, exact: bool) -> tuple:
 # part 'backend'
 
 def set_files(names: list, tag: str) -> list:
-    files = [(n, f'<{tag}|{n}>'.encode()) for n in names]
+    # two of every three files are larger than a VPK's directory-data limit (so that its tail lives in an archive, not in the tree)
+    files = [(n, f'<{tag}|{n}>'.encode() + (b'0123456789abcdef' * 160 if i % 3 != 2 else b'')) for i, n in enumerate(names)]
     model = Model(files)
     if model.has_casedup:
         files = vpk_order(files)
